@@ -6,4 +6,5 @@ open Biogo.Properties.C15_merge
 #print axioms merger_output_sorted
 #print axioms merger_output_wellformed
 #print axioms merger_self_clear_of_diagonal
+#print axioms merger_output_within_rows
 #print axioms merger_total
